@@ -673,6 +673,8 @@ class Checker:
         if exp.ndim == 0:
             if v["shape"] != []:
                 ctx.violation(base + ":shape", "%s has shape %s expected []" % (what, v["shape"]), det)
+            elif v["data"] and v["data"] != [int(exp)]:
+                ctx.violation(base + ":elements", "%s (0-dim) holds %s expected %s" % (what, v["data"], int(exp)), det)
             return True
         eflat = exp.reshape(-1).tolist()
         if v["shape"] != eshape:
